@@ -104,7 +104,7 @@ class C09(Check):
         if case['kind'] == 'row':
             r = self._rows[case['i']]
             return {k: r.get(k) for k in ('op', 'profile', 'shape', 'args', 'capsMode', 'outcome', 'nsent', 'asserted', 'probedMinus', 'outsider',
-                                          'rootNs', 'rootName', 'hasMsgId', 'nOps', 'opNs', 'opName', 'params', 'sentinels')}
+                                          'rootNs', 'rootName', 'hasMsgId', 'nOps', 'opNs', 'opName', 'params', 'sentinels', 'enumLeaves')}
         from impl.rpcstub import make_manager
         op, kw, _ = CALLS[case['call']]
         m, s, dh = make_manager(profile=case['profile'], server_caps=case['uris'], raise_mode=0,
